@@ -179,6 +179,7 @@ fn process_array_in(
                 | rq::ExprKind::Literal(_)
                 | rq::ExprKind::SString(_)
                 | rq::ExprKind::Param(_)
+                | rq::ExprKind::Case(_)
                 | rq::ExprKind::Operator { name: _, args: _ },
             ..
         }, rq::Expr {
@@ -192,7 +193,11 @@ fn process_array_in(
                 Ok(sql_ast::Expr::Value(Value::Boolean(false).into()))
             } else {
                 Ok(sql_ast::Expr::InList {
-                    expr: Box::new(translate_expr(col_expr.clone(), ctx)?.into_ast()),
+                    // (binds like a comparison: a comparison as its subject needs parentheses)
+                    expr: Box::new(
+                        translate_operand(col_expr.clone(), true, 6, Associativity::Neither, ctx)?
+                            .into_ast(),
+                    ),
                     list: in_values
                         .iter()
                         .map(|a| Ok(translate_expr(a.clone(), ctx)?.into_ast()))
@@ -1010,6 +1015,9 @@ impl SQLExpression for sql_ast::Expr {
 
             // `a BETWEEN x AND y = b` would parse as `a BETWEEN x AND (y = b)`
             sql_ast::Expr::Between { .. } => 6,
+
+            // `a = b IN (1, 2)` would parse as `(a = b) IN (1, 2)`
+            sql_ast::Expr::InList { .. } => 6,
 
             // all other items types bind stronger (function calls, literals, ...)
             _ => 20,
